@@ -30,4 +30,59 @@ def api_query_rollback_status_shipped : Exchange :=
   { req := reqQueryRollbackStatus, rsp := rspQueryRollbackStatus, vals := .ok (fresh reqQueryRollbackStatus),
     post := fun v => .ok (.optNatPair none (match optIntAt v 3 with | some 0 => none | e => e)) }
 
+/-! ### Get Component Properties, selector 2 (description string) -/
+
+def hexDigit? (c : Nat) : Option Nat :=
+  if 48 ≤ c ∧ c ≤ 57 then some (c - 48)
+  else if 97 ≤ c ∧ c ≤ 102 then some (c - 87)
+  else if 65 ≤ c ∧ c ≤ 70 then some (c - 55)
+  else none
+
+/-- the value of `n` hexadecimal digits at the head of `l`; `none`: fewer than `n` bytes left or not a digit -/
+def hexRun : Nat → List Nat → Nat → Option (Nat × List Nat)
+  | 0, l, acc => some (acc, l)
+  | _ + 1, [], _ => none
+  | n + 1, c :: t, acc =>
+    match hexDigit? c with
+    | some d => hexRun n t (acc * 16 + d)
+    | none => none
+
+/-- `bytes.decode('raw_unicode_escape')` (CPython 3: `_PyUnicode_DecodeRawUnicodeEscapeStateful`): every byte is
+the character of that number, except that a backslash followed by `u` / `U` starts an escape of 4 / 8 hexadecimal
+digits naming ONE character; a backslash followed by anything else stands for itself together with that byte.
+`none`: UnicodeDecodeError (truncated escape, not a digit, above 10FFFFh).  `fuel` ≥ length. -/
+def rawUnicodeEscape : Nat → List Nat → Option (List Nat)
+  | _, [] => some []
+  | 0, _ => none
+  | _ + 1, [c] => some [c]
+  | fuel + 1, c :: d :: t =>
+    if c ≠ 92 then (rawUnicodeEscape fuel (d :: t)).map (c :: ·)
+    else if d = 117 ∨ d = 85 then
+      match hexRun (if d = 117 then 4 else 8) t 0 with
+      | some (ch, rest) => if ch > 0x10ffff then none else (rawUnicodeEscape fuel rest).map (ch :: ·)
+      | none => none
+    else (rawUnicodeEscape fuel t).map (fun r => c :: d :: r)
+
+/-- `ComponentPropertyDescriptionString._from_rsp_data`: the bytes of the property as characters, NULs removed.
+INTENDED (fixes/C07-11): one character per byte (`latin-1`); AS SHIPPED: through `raw_unicode_escape` -/
+def descrOf (shipped : Bool) (data : List Nat) : Outcome Result :=
+  if shipped then
+    match rawUnicodeEscape data.length data with
+    | some cs => .ok (.text (cs.filter (· != 0)))
+    | none => .pyError "UnicodeDecodeError"
+  else .ok (.text (data.filter (· != 0)))
+
+/-- get_component_property(id, PROPERTY_DESCRIPTION_STRING).description; an empty property leaves the object
+without the attribute (`if (data):` in `ComponentProperty.__init__`) -/
+def getComponentDescription (shipped : Bool) (id : Nat) : Exchange :=
+  { req := reqGetComponentProperties, rsp := rspGetComponentProperties,
+    vals := .ok (setInt (setInt (fresh reqGetComponentProperties) 1 id) 2 hpmDescriptionSelector),
+    post := fun v =>
+      match arrAt v 2 with
+      | [] => .pyError "AttributeError"
+      | data => descrOf shipped data }
+
+def api_get_component_description := getComponentDescription false
+def api_get_component_description_shipped := getComponentDescription true
+
 end PyIpmi.Model.Api
